@@ -281,7 +281,8 @@ func (vc *VC) pos(p token.Pos) token.Position {
 // declaredInLoop: the variable is declared inside the body of some loop of the function under contract (typically a value
 // looked up for the element being processed, e.g. layer := layers[j])
 func (vc *VC) declaredInLoop(a *ssa.Alloc) bool {
-	if a.Parent() != vc.Fn {
+	if a.Parent() != vc.Fn || vc.Con == nil || !vc.Con.Has("loop-candidates") {
+		// opt-in per contract ("loop-candidates"): more candidate terms make every loop step of the function larger
 		return false
 	}
 	if vc.loopAssigned == nil {
